@@ -564,7 +564,7 @@ func runC18(ctx *core.Ctx, pool *par.Pool) {
 	ctx.SetBudget(110 * time.Second)
 	if !ctx.Quick() {
 		depth = 6
-		ctx.SetBudget(25 * time.Minute)
+		ctx.SetBudget(15 * time.Minute)
 	}
 	base := lockTmpBase()
 	defer os.RemoveAll(base)
